@@ -257,6 +257,9 @@ _amend("C10", "text", "Decides nine structural clauses", "Decides ten structural
 _amend("C19", "text", "(R19.1-R19.15,", "(R19.1-R19.16,")
 
 _amend("C17", "text", "(one obligation per entry, all discharged).", "(one obligation per entry, all discharged). In addition the HTML attribute writer is shown to take `boolean` from that table alone (R17.boolwriter: the guard of the `=value` write is built from len(value) and Traits&booleanAttr only).")
+_amend("C02", "text", "(R02.1-R02.9, DESIGN.md §4 C02; R02.9 reports one known finding:", "(R02.1-R02.10, DESIGN.md §4 C02; R02.10 reports a known finding: bindings of a dissolved else-block clash where names are kept; R02.9 reports one known finding:")
+_amend("C03", "text", "(R03.1-R03.10 incl. R03.5c-e, DESIGN.md §4 C03):", "(R03.1-R03.11 incl. R03.5c-e, DESIGN.md §4 C03):")
+_amend("C03", "text", "Decides ten local clauses", "Decides eleven local clauses")
 
 NOT_APPLICABLE = {
  "C18": "DataURI/Mediatype correctness is about decoded byte values and length comparisons between encodings; no structural clause separates a right "
